@@ -1,6 +1,7 @@
 SPECIFICATION TSpec
 CONSTANTS
   IgnorePatterns <- DataIgnorePatterns
+  EaExts <- DataEaExts
   SkipUnservable = TRUE
   SortedEnum = TRUE
   DotRuleAll = TRUE
